@@ -1,9 +1,9 @@
 SPECIFICATION MCSpec
 CONSTANTS Tables = {"a", "b"}
-          GroupOf <- Groups1
+          GroupOf <- GroupsMixed
           MaxFile = 2
           Sizes = {1, 2}
-          MaxItems = 3
+          MaxItems = 2
           MaxBatch = 2
           MaxCrashes = 1
           TailBeyondSync = FALSE
